@@ -485,6 +485,7 @@ func (x *treeExec) serve(m, raw string, hdr map[string]string) (o serveOut) {
 
 // oracle facts for one request
 type facts struct {
+	oskip  bool // the oracle gave up (very long input): only totality is judged
 	p      []string
 	dec    []string
 	decok  []bool
@@ -500,6 +501,15 @@ func splitPath(raw string) []string {
 func (x *treeExec) factsFor(m, raw string, hdr map[string]string) facts {
 	var fx facts
 	segs := splitPath(raw)
+	if len(segs) > 24 {
+		fx.oskip = true
+		segs = segs[:24]
+	}
+	for _, s := range segs {
+		if len(s) > 300 {
+			fx.oskip = true
+		}
+	}
 	fx.adm = [][]string{}
 	fx.splits = [][]interface{}{}
 	fx.hadm = [][]string{}
@@ -512,6 +522,9 @@ func (x *treeExec) factsFor(m, raw string, hdr map[string]string) facts {
 	seen := map[string]bool{}
 	hseen := map[string]bool{}
 	for i, e := range x.c.H {
+		if fx.oskip {
+			break
+		}
 		if i >= len(x.accept) || !x.accept[i] || e.M != m {
 			continue
 		}
@@ -723,7 +736,14 @@ func (x *treeExec) run(tr *traceWriter) {
 		for k, v := range hdr {
 			hh[k] = v
 		}
-		tr.emit(map[string]interface{}{"ev": "Serve", "m": m, "raw": encBytes(raw), "p": fx.p, "h": hh,
+		rawOut := raw
+		if fx.oskip {
+			rawOut = raw[:min(len(raw), 64)]
+			fx.p, fx.dec, fx.decok = []string{""}, []string{""}, []bool{true}
+			o.params = map[string]string{"route": o.params["route"]}
+			o.rbWith, o.rbWithout = "", ""
+		}
+		tr.emit(map[string]interface{}{"ev": "Serve", "oskip": fx.oskip, "m": m, "raw": encBytes(rawOut), "p": fx.p, "h": hh,
 			"dec": fx.dec, "decok": fx.decok, "adm": fx.adm, "splits": fx.splits, "hadm": fx.hadm,
 			"reg": o.reg, "params": encParams(o.params), "panicked": o.panicked, "chains": o.chains,
 			"rb_with": encBytes(o.rbWith), "rb_without": encBytes(o.rbWithout), "rbok": o.rbOK, "status": o.status})
@@ -811,6 +831,13 @@ func (x *treeExec) run(tr *traceWriter) {
 		tr.emit(map[string]interface{}{"ev": "URLPath", "reg": reg, "known": known, "vals": vals, "withopt": u.WithOpt,
 			"out": encBytes(out), "panicked": panicked})
 	}
+}
+
+func min(a, b int) int {
+	if a < b {
+		return a
+	}
+	return b
 }
 
 func envInt(k string, d int) int {
